@@ -38,6 +38,14 @@ template<class ET, class V> void read_brackets(V const& v, std::vector<i64>& out
 		else read_brackets<ET>(v[i], out, ok);
 	}
 }
+// reads a view of plain i64 (the result of reinterpret_array_cast) in canonical order
+template<class V> void read_i64(V const& v, std::vector<i64>& out) {
+	constexpr int R = std::decay_t<V>::rank_v;
+	for(auto i : v.extension()) {
+		if constexpr(R == 1) out.push_back(static_cast<i64>(v[i]));
+		else read_i64(v[i], out);
+	}
+}
 template<class ET, class V> void read_iterators(V const& v, std::vector<i64>& out, bool& ok) {
 	constexpr int R = std::decay_t<V>::rank_v;
 	for(auto it = v.begin(); it != v.end(); ++it) {
@@ -103,6 +111,7 @@ struct Exec {
 		T.mpi           = Cfg::mpi;
 		T.ctor_default_inits = Cfg::default_init;
 		T.always_equal  = Cfg::always_equal;
+		T.tracked_is_triv = std::is_same_v<typename Cfg::elem, Triv>;
 		T.pocca         = Cfg::pocca;
 		T.pocma         = Cfg::pocma;
 		T.pocs          = Cfg::pocs;
